@@ -126,7 +126,7 @@ FIXED = [
 DEPTH_CFG = {'options': {'output.formatSkip': [], 'output.selfClosingStyle': 'xhtml'}}
 # depth checks on fixed abbreviations: (abbr, config, finding class or None)
 FIXED_DEPTH = [
-    ('div>p{a\x0bb}', DEPTH_CFG, None),
+    ('div>p{a\x0bb}', DEPTH_CFG, None),        # \v, \f: ordinary characters since push_string splits at CR/LF only
     ('ul>li{x\x0cy}+li', DEPTH_CFG, None),
     ('div>a[title="x\ny"]', DEPTH_CFG, None),
     ('div>p{a\nb ${1} c}>x', DEPTH_CFG, 'C12:depth-multiline-field-text-with-children'),
@@ -173,6 +173,8 @@ def load_corpus():
 
 def evaluate(kind, abbr, cfg_a, cfg_b, ra, rb):
     """Returns (failure text or None, finding-class key or None)."""
+    if ra[0] == 'hang' or (rb is not None and rb[0] == 'hang'):
+        return 'expand did not return within %s s' % (ra[1] if ra[0] == 'hang' else rb[1]), None
     if ra[0] != 'ok' or (rb is not None and rb[0] != 'ok'):
         if rb is not None and ra[:2] == rb[:2]:
             return None, None       # both runs fail alike (parse error): nothing to compare
